@@ -122,6 +122,69 @@ def main():
         missing.append('SERIALIZER_INDENT')
 
     os.makedirs(os.path.dirname(out), exist_ok=True)
+    # ---- parser byte classes (fluent-syntax/src/parser) ----
+    def byte_lits(text):
+        """b'x' / b'\\n' literals in a piece of Rust source -> list of byte values"""
+        out_ = []
+        for m_ in re.finditer(r"b'((?:\\.|[^'\\]))'", text):
+            out_.append(char_lit(m_.group(1)))
+        return out_
+
+    def char_lits(text):
+        out_ = []
+        for m_ in re.finditer(r"'((?:\\.|[^'\\]))'", text):
+            out_.append(char_lit(m_.group(1)))
+        return out_
+
+    def nlist(l):
+        return '[' + '; '.join(str(x) for x in l) + ']%N'
+
+    h = read(repo, 'fluent-syntax/src/parser/helper.rs')
+    m = re.search(r'fn is_byte_pattern_continuation\(b: u8\) -> bool \{\s*!matches!\(b,([^)]*)\)', h)
+    if m:
+        add('PARSER_NOT_CONTINUATION', nlist(byte_lits(m.group(1))), 'helper.rs is_byte_pattern_continuation: !matches!(b, ..)')
+    else:
+        missing.append('PARSER_NOT_CONTINUATION')
+    m = re.search(r'new_line && \(b\.is_ascii_alphabetic\(\) \|\| \[([^\]]*)\]\.contains\(b\)\)', h)
+    if m:
+        add('PARSER_ENTRY_START_EXTRA', nlist(byte_lits(m.group(1))), 'helper.rs scan_to_next_entry_start: alphabetic or one of these')
+    else:
+        missing.append('PARSER_ENTRY_START_EXTRA')
+    m = re.search(r'fn is_callee.*?\.all\(\|c\| c\.is_ascii_uppercase\(\) \|\| c\.is_ascii_digit\(\)((?: \|\| \*c == b\'.\')*)\)', h, re.S)
+    if m:
+        add('PARSER_CALLEE_EXTRA', nlist(byte_lits(m.group(1))), 'helper.rs is_callee: uppercase, digit or one of these')
+    else:
+        missing.append('PARSER_CALLEE_EXTRA')
+    c = read(repo, 'fluent-syntax/src/parser/core.rs')
+    m = re.search(r'b\.is_ascii_alphanumeric\(\)((?: \|\| \*b == b\'.\')*)\)', c)
+    if m:
+        add('PARSER_IDENT_EXTRA', nlist(byte_lits(m.group(1))), 'core.rs get_identifier_unchecked: alphanumeric or one of these')
+    else:
+        missing.append('PARSER_IDENT_EXTRA')
+    sl = read(repo, 'fluent-syntax/src/parser/slice.rs')
+    m = re.search(r'fn matches_fluent_ws\(c: char\) -> bool \{([^}]*)\}', sl)
+    if m:
+        add('FLUENT_WS', nlist(char_lits(m.group(1))), 'slice.rs matches_fluent_ws')
+    else:
+        missing.append('FLUENT_WS')
+    pt = read(repo, 'fluent-syntax/src/parser/pattern.rs')
+    m = re.search(r'memchr::memchr3\(([^)]*)rest\)', pt)
+    if m:
+        add('PARSER_TEXT_STOP', nlist(byte_lits(m.group(1))), 'pattern.rs get_text_slice: memchr3 stop bytes')
+    else:
+        missing.append('PARSER_TEXT_STOP')
+    ex = read(repo, 'fluent-syntax/src/parser/expression.rs')
+    m = re.search(r"b'\\\\' => match get_byte!\(self, self\.ptr \+ 1\) \{\s*((?:Some\(b'(?:\\.|[^'])'\)\s*\|?\s*)+)=> self\.ptr \+= 2", ex)
+    if m:
+        add('PARSER_SIMPLE_ESCAPES', nlist(byte_lits(m.group(1))), 'expression.rs string literal: two-byte escapes')
+    else:
+        missing.append('PARSER_SIMPLE_ESCAPES')
+    lens = re.findall(r'skip_unicode_escape_sequence\((\d+)\)', ex)
+    if len(lens) == 2:
+        add('PARSER_UNICODE_ESCAPE_LENGTHS', '(%s, %s)%%nat' % (lens[0], lens[1]), 'expression.rs: hex digits after \\u and \\U')
+    else:
+        missing.append('PARSER_UNICODE_ESCAPE_LENGTHS')
+
     with open(out + '.tmp', 'w', encoding='utf-8') as f:
         f.write('(* Gen/Extracted.v — GENERATED by tools/extract_consts.py from the Rust sources of the repository under check; do not edit. *)\n')
         f.write('From Coq Require Import List NArith.\nImport ListNotations.\n\n')
